@@ -28,6 +28,8 @@ def _leaf(fn):
 
 
 def run(ctx, obs):
+    from ..rules import sweeps
+    sweeps.run(ctx, obs, 'C19')
     comparators(ctx, obs)
     index_space(ctx, obs)
     siblings(ctx, obs)
